@@ -108,6 +108,7 @@ impl Issuer {
     pub fn remove_key(e: &Env, pk: Bytes, registry: Address, scheme: u32, topic: u32) { ci::remove_key(e, &pk, &registry, scheme, topic) }
     pub fn revoke(e: &Env, identity: Address, topic: u32, data: Bytes, revoked: bool) { ci::set_claim_revoked(e, &identity, topic, &data, revoked) }
     pub fn bump(e: &Env, identity: Address, topic: u32) { ci::invalidate_claim_signatures(e, &identity, topic) }
+    pub fn is_revoked(e: &Env, identity: Address, topic: u32, data: Bytes) -> bool { ci::is_claim_revoked(e, &identity, topic, &data) }
     pub fn nonce(e: &Env, identity: Address, topic: u32) -> u32 { ci::get_current_nonce_for(e, &identity, topic) }
     pub fn key_allowed(e: &Env, pk: Bytes, scheme: u32, topic: u32) -> bool { ci::is_key_allowed_for_topic(e, &pk, scheme, topic) }
 }
@@ -218,7 +219,33 @@ impl Check for Identity {
         // a claim from only one of them — so that "any trusted issuer suffices" is exercised from step 6 on
         let mut deadlines: std::vec::Vec<u64> = vec![]; // offsets from T0 of valid_until of issued claims
         let mut elapsed: u64 = 0;
-        if rng.chance(15) {
+        if rng.chance(10) {
+            // directed opening "one payload under two topics": the same issuer signs identical data with identical validity
+            // for two required topics; one of the two claims is revoked (later perhaps un-revoked): the other is untouched
+            let (t1, t2) = (rng.below(2) as u32, 2 + rng.below(2) as u32);
+            topics.insert(t1);
+            topics.insert(t2);
+            let i = rng.below(cfg.issuers as u64) as usize;
+            let (data, ttl) = (rng.below(3) as u8, 5_000 + rng.below(1000));
+            let which = if rng.chance(50) { t1 } else { t2 };
+            steps.extend([
+                Step::AddTopic { t: t1 },
+                Step::AddTopic { t: t2 },
+                Step::AddIssuer { i, ts: vec![t1, t2] },
+                Step::AllowKey { i, key: 0, t: t1 },
+                Step::AllowKey { i, key: 0, t: t2 },
+                Step::Issue { inv: 0, i, t: t1, key: 0, ttl, data, tamper: Tamper::None },
+                Step::Issue { inv: 0, i, t: t2, key: 0, ttl, data, tamper: Tamper::None },
+                Step::Verify { inv: 0 },
+                Step::Revoke { i, inv: 0, t: which, data, on: true },
+                Step::Verify { inv: 0 },
+                Step::Revoke { i, inv: 0, t: t1 + t2 - which, data, on: true },
+                Step::Revoke { i, inv: 0, t: which, data, on: false },
+                Step::Verify { inv: 0 },
+            ]);
+            gkeys.insert((i, 0, t1));
+            gkeys.insert((i, 0, t2));
+        } else if rng.chance(15) {
             // directed opening "state set long ago": a long-lived claim is verified, then invalidated in one of three ways
             // (revoked / nonce bumped / key removed) or left alone, then more than 31 days pass without any call, then verify
             let t = rng.below(4) as u32;
@@ -297,6 +324,17 @@ impl Check for Identity {
                 }
                 _ => Step::Verify { inv: if rng.chance(70) { 0 } else { inv } },
             };
+            // claims are often issued in batches: the same issuer signs the same payload with the same validity for a second
+            // topic in the same ledger (identical data under two topics)
+            if let Step::Issue { inv, i, t, key, ttl, data, tamper: Tamper::None } = &s {
+                if rng.chance(25) {
+                    let t2 = (*t + 1 + rng.below(3) as u32) % 4;
+                    let twin = Step::Issue { inv: *inv, i: *i, t: t2, key: *key, ttl: *ttl, data: *data, tamper: Tamper::None };
+                    steps.push(s.clone());
+                    steps.push(twin);
+                    continue;
+                }
+            }
             steps.push(s);
         }
         (cfg, steps)
@@ -496,6 +534,15 @@ impl Check for Identity {
                     if seen != want {
                         return Err(violation("claims.getters_eq_model", "get_claim_ids_by_topic", i_step, format!("investor {ix} topic {t}: lists issuers {seen:?}, model {want:?} after {s:?}")));
                     }
+                }
+            }
+            // "neither revoked": the issuer's revocation flag of every held claim equals the model — per claim, i.e. per
+            // (identity, topic, data): revoking one topic's claim says nothing about an identical payload under another topic
+            for ((inv, ix, t), h) in m.held.iter() {
+                let real = IssuerClient::new(e, &issuers[*ix]).try_is_revoked(&idents[*inv], t, &data_of(h.data, T0, h.valid_until));
+                let want = m.revoked.contains(&(*ix, *inv, *t, h.data, h.valid_until));
+                if real != Ok(Ok(want)) {
+                    self.clause(st, &mut parked, violation("revoked.flag_eq_model", "is_claim_revoked", i_step, format!("issuer {ix} investor {inv} topic {t} data {}: {real:?}, model {want} after {s:?}", h.data)))?;
                 }
             }
             // "an issuer that is currently trusted for that topic": the registry's topic → issuers map equals the model
